@@ -478,7 +478,8 @@ class DoIPConnection:
         self.protocol_version = protocol_version
         self.separate_diagnostic_message_queue = separate_diagnostic_message_queue
         self._diagnostic_message_queue: asyncio.Queue[DoIPDiagFrame] = asyncio.Queue()
-        self._read_queue: asyncio.Queue[DoIPFrame] = asyncio.Queue()
+        # None is queued by the read worker when it terminates (EOF, reset, close)
+        self._read_queue: asyncio.Queue[DoIPFrame | None] = asyncio.Queue()
         # Frames which were taken from the queue by a consumer they were not meant for;
         # they are handed out again, in their original order, before newer frames.
         self._unread_frames: deque[DoIPFrame] = deque()
@@ -572,6 +573,8 @@ class DoIPConnection:
             logger.info(f"DoIP read worker died with {e!r}")
         finally:
             logger.debug("Feeding EOF to reader and requesting a close")
+            # Consumers blocked on the queue would otherwise wait forever.
+            self._read_queue.put_nowait(None)
             self.reader.feed_eof()
             await self.close()
 
@@ -582,7 +585,12 @@ class DoIPConnection:
             raise ConnectionError
         if len(self._unread_frames) > 0:
             return self._unread_frames.popleft()
-        return await self._read_queue.get()
+        frame = await self._read_queue.get()
+        if frame is None:
+            # The read worker is gone; wake up other consumers as well.
+            self._read_queue.put_nowait(None)
+            raise ConnectionError("DoIP connection lost")
+        return frame
 
     async def read_frame(self) -> DoIPFrame:
         async with self._mutex:
